@@ -1170,4 +1170,345 @@ theorem C09_bsei_unbond_tx_succeeds (s : Sys) (u : Addr) (amt : Nat)
       rw [← hubeq, ← sb.batchId]; simp [HubSt.afterUnbondB, HubSt.addWait]
     rw [this, sb.waitB, sb.batchId, hubeq]; omega
 
+/-- **The bSei unbond that closes the batch succeeds as a whole transaction**: as
+    `C09_bsei_unbond_tx_succeeds`, with the batch valued at the rate recomputed after the request,
+    every Undelegate message accepted by the staking module, and the batch written to the history.
+    Premises on the state the slashing check produces: the bSei pool is backed, the stSei pool is
+    backed or has no pending requests (D6 is the failure of these), the books do not exceed the
+    delegations; the staking module's unbonding-entry limit is not reached (E2). -/
+theorem C09_bsei_unbond_closing_batch_tx_succeeds (s : Sys) (u : Addr) (amt : Nat)
+    (w : Wired s) (hp : s.hub.isPaused = false) (hst : s.hub.stsei = some stseiA)
+    (wf : s.bsei.WF) (rinv : s.reward.Inv)
+    (hmu : s.reward.hBal u = s.bsei.bal u) (hmh : s.reward.hBal hubA = s.bsei.bal hubA)
+    (hmt : s.reward.totalBalance = s.bsei.supply)
+    (hpos : 0 < amt) (hbal : amt ≤ s.bsei.bal u) (hu : u ≠ hubA)
+    (hfee : s.hub.fee ≤ D) (hthr : s.hub.thr ≤ D)
+    (hdl : s.delegationsOf hubA ≠ []) (hr : ((s.delegationsOf hubA).map (·.2)).sum < U128)
+    (hnu : ∀ v, s.chain.noUndelegate v = false)
+    (hpre : ∀ st, s.hub.actualState s.hubEnv = .ok st →
+      st.bBond ≠ 0 ∧ (st.sBond ≠ 0 ∨ st.reqS = 0) ∧
+      st.bBond + st.sBond ≤ ((s.delegationsOf hubA).map (·.2)).sum)
+    (ht1 : s.hub.lastUnbondedTime ≤ s.chain.time)
+    (hgate : s.chain.time - s.hub.lastUnbondedTime > s.hub.epoch) :
+    ∃ s', s.exec (.wasm u bseiA (.tok (.send hubA amt .unbond)) []) = (s', .ok ()) ∧
+      s'.bsei.supply + amt = s.bsei.supply ∧ s'.reward.totalBalance = s'.bsei.supply ∧
+      s'.hub.batchId = s.hub.batchId + 1 ∧
+      (∃ x, s'.hub.hist s.hub.batchId = some x ∧ x.time = s.chain.time ∧ x.released = false) := by
+  have hd : s.delegationsOf hubA ≠ [] ∨ s.hub.bBond + s.hub.sBond = 0 := Or.inl hdl
+  have hstale : s.hub.bBond + s.hub.sBond = 0 → s.hub.bRate < s.hub.thr → s.hub.bBond ≤ s.bsei.supply + s.hub.reqB := by
+    intro h0 _; omega
+  have hbt : s.hub.bsei = some bseiA := w.hubTok
+  -- 1. the token moves the tokens to the hub, tells the reward contract and notifies the hub
+  obtain ⟨t1, ht1'⟩ : ∃ t, s.bsei.transfer u hubA amt = .ok t := by
+    unfold Token.transfer Token.move
+    rw [if_neg (by omega), if_neg (by omega)]
+    exact ⟨_, rfl⟩
+  have st1 := Token.transfer_step s.bsei t1 wf u hubA amt ht1'
+  have hub1 : t1.hub = hubA := by rw [st1.1.hub]; exact w.tokHub
+  have sup1 : t1.supply = s.bsei.supply := by have := st1.1.supply; omega
+  have balh : t1.bal hubA = s.bsei.bal hubA + amt := by
+    unfold Token.transfer Token.move at ht1'
+    rw [if_neg (by omega), if_neg (by omega)] at ht1'
+    injection ht1' with ht1'; subst ht1'
+    simp [Token.setBal, upd, Ne.symm hu]
+  obtain ⟨s1, hs1⟩ : ∃ x : Sys, x = { s with bsei := t1 } := ⟨_, rfl⟩
+  have hra : s.bseiRewardAddr = .ok rewardA := w.rewardAddr
+  have H1 : s.handle (.wasm u bseiA (.tok (.send hubA amt .unbond)) []) =
+      .ok (s1, [Msg.wasm bseiA rewardA (.reward (.decrease u amt)) [],
+                Msg.wasm bseiA rewardA (.reward (.increase hubA amt)) [],
+                Msg.wasm bseiA hubA (.hub (.receive u amt .unbond)) []]) := by
+    simp only [Sys.handle, Sys.moveFunds, bind, Except.bind, pure, Except.pure]
+    rw [if_neg (by decide), if_pos trivial]
+    have : ({ s with } : Sys).bseiRewardAddr = .ok rewardA := hra
+    simp only [bseiExec, bind, Except.bind, pure, Except.pure, hra, ht1', receiveMsg, if_true, hs1]
+  -- 2. the reward contract lowers the sender's mirrored balance
+  have tok1 : s1.hubTokenOf s1.reward.hub = .ok bseiA := by
+    rw [hs1]; exact w.tokenOf
+  obtain ⟨r2, hr2, inv2, hb2, htot2, hh2, hoth2, ho2, hn2⟩ := reward_decrease_ok s1.reward rewardA
+    (s1.hubDispatcherOf s1.reward.hub) (s1.chain.bank rewardA) bseiA u amt (by rw [hs1]; exact rinv)
+    (by rw [hs1]; show amt ≤ s.reward.hBal u; omega) (by rw [hs1]; show amt ≤ s.reward.totalBalance; rw [hmt]; exact Nat.le_trans hbal (Token.bal_le_supply s.bsei wf u))
+  obtain ⟨s2, hs2⟩ : ∃ x : Sys, x = { s1 with reward := r2 } := ⟨_, rfl⟩
+  have H2 : s1.handle (Msg.wasm bseiA rewardA (.reward (.decrease u amt)) []) = .ok (s2, []) := by
+    simp only [Sys.handle, Sys.moveFunds, bind, Except.bind, pure, Except.pure]
+    rw [if_neg (by decide), if_neg (by decide), if_neg (by decide), if_pos trivial]
+    simp only [tok1, hr2, hs2]
+  -- 3. … and raises the hub's
+  have tok2 : s2.hubTokenOf s2.reward.hub = .ok bseiA := by
+    rw [hs2]; show s1.hubTokenOf r2.hub = _; rw [hh2]; exact tok1
+  obtain ⟨r3, hr3, inv3, hb3, htot3, hh3, hoth3, ho3, hn3⟩ := reward_increase_ok s2.reward rewardA
+    (s2.hubDispatcherOf s2.reward.hub) (s2.chain.bank rewardA) bseiA hubA amt (by rw [hs2]; exact inv2)
+  obtain ⟨s3, hs3⟩ : ∃ x : Sys, x = { s2 with reward := r3 } := ⟨_, rfl⟩
+  have H3 : s2.handle (Msg.wasm bseiA rewardA (.reward (.increase hubA amt)) []) = .ok (s3, []) := by
+    simp only [Sys.handle, Sys.moveFunds, bind, Except.bind, pure, Except.pure]
+    rw [if_neg (by decide), if_neg (by decide), if_neg (by decide), if_pos trivial]
+    simp only [tok2, hr3, hs3]
+  -- 4. the hub prices the request
+  have hubeq : s3.hub = s.hub := by rw [hs3, hs2, hs1]
+  have hb3q : s3.hub.bSupplyQ s3.hubEnv = .ok s.bsei.supply := by
+    rw [hubeq]; simp only [HubSt.bSupplyQ, hbt]
+    show s3.supplyOf bseiA = _
+    rw [hs3, hs2, hs1]; unfold Sys.supplyOf; simp [sup1]
+  have hs3q : s3.hub.sSupplyQ s3.hubEnv = .ok s3.stsei.supply := by
+    rw [hubeq]; simp only [HubSt.sSupplyQ, hst]; rfl
+  obtain ⟨st, hact⟩ := actualState_live s3.hub s3.hubEnv _ _ hb3q hs3q
+  have spec := actualState_spec s3.hub st s3.hubEnv hact
+  have sb := spec.1
+  have timeq : s3.hubEnv.now = s.chain.time := by rw [hs3, hs2, hs1]; rfl
+  have hdeq : s3.hubEnv.delegations = s.delegationsOf hubA := by rw [hs3, hs2, hs1]; rfl
+  have hbsq' : st.bSupplyQ s3.hubEnv = .ok s.bsei.supply := by
+    simp only [HubSt.bSupplyQ, sb.bsei]; rw [hubeq] ; simp only [hbt]
+    have := hb3q; rw [hubeq] at this; simp only [HubSt.bSupplyQ, hbt] at this; exact this
+  -- the peg fee cannot fail
+  have hsup : amt ≤ s.bsei.supply := Nat.le_trans hbal (Token.bal_le_supply s.bsei wf u)
+  obtain ⟨wfee, hwf, hwle⟩ : ∃ x, st.pegFeeOnBurn s.bsei.supply amt = .ok x ∧ x ≤ amt := by
+    unfold HubSt.pegFeeOnBurn
+    by_cases hlt : st.bRate < st.thr
+    · rw [if_pos hlt]
+      have hgap : ¬ (s.bsei.supply + st.reqB < st.bBond) := by
+        rcases spec.2 with ⟨hz, he⟩ | ⟨bs, ss, _, hnz, hbq, _, hbR, _, _⟩
+        · subst he
+          rcases hz with hz | hz
+          · rcases hd with hd' | hd'
+            · rw [hdeq] at hz; exact absurd hz hd'
+            · rw [hubeq] at hlt ⊢
+              have := hstale hd' hlt; omega
+          · rw [hubeq] at hz hlt ⊢
+            have := hstale hz hlt; omega
+        · have ebs : bs = s.bsei.supply := by
+            rw [hb3q] at hbq; injection hbq with h; exact h.symm
+          rw [hbR, ebs] at hlt
+          rw [sb.reqB]
+          unfold rateOf at hlt
+          by_cases hc : st.bBond = 0 ∨ s.bsei.supply + s3.hub.reqB = 0
+          · rw [if_pos hc] at hlt
+            have : st.thr ≤ D := by rw [sb.thr, hubeq]; exact hthr
+            omega
+          · rw [if_neg hc] at hlt
+            intro hgt
+            have hcl : 0 < s.bsei.supply + s3.hub.reqB := by omega
+            have : D ≤ fromRatio st.bBond (s.bsei.supply + s3.hub.reqB) := by
+              unfold fromRatio
+              apply (Nat.le_div_iff_mul_le hcl).mpr
+              rw [Nat.mul_comm]
+              exact Nat.mul_le_mul_right D (by omega)
+            have : st.thr ≤ D := by rw [sb.thr, hubeq]; exact hthr
+            omega
+      rw [if_neg hgap]
+      have hm : mulDec amt st.fee ≤ amt := mulDec_le_self amt st.fee (by rw [sb.fee, hubeq]; exact hfee)
+      have hmin : min (mulDec amt st.fee) (s.bsei.supply + st.reqB - st.bBond) ≤ amt := Nat.le_trans (Nat.min_le_left _ _) hm
+      rw [if_neg (by omega)]
+      exact ⟨_, rfl, by omega⟩
+    · rw [if_neg hlt]; exact ⟨amt, rfl, Nat.le_refl _⟩
+  -- the hub sees the environment of the start of the transaction (the supply is unchanged)
+  have henv : s3.hubEnv = s.hubEnv := by
+    rw [hs3, hs2, hs1]
+    unfold Sys.hubEnv
+    have : ({ s with bsei := t1, reward := r3 } : Sys).supplyOf = s.supplyOf := by
+      funext a; unfold Sys.supplyOf; simp only [sup1]
+    show ({ self := hubA, now := s.chain.time, hubBalance := s.chain.bank hubA 0, delegations := s.delegationsOf hubA,
+            supplyOf := ({ s with bsei := t1, reward := r3 } : Sys).supplyOf,
+            validatorsOf := ({ s with bsei := t1, reward := r3 } : Sys).validatorsOf } : HubEnv) = _
+    rw [this]; rfl
+  have hact0 : s.hub.actualState s.hubEnv = .ok st := by rw [← hubeq, ← henv]; exact hact
+  obtain ⟨hbb, hsb, hbooks⟩ := hpre st hact0
+  -- the slashing check took its main branch: the stSei rate is a true ratio
+  obtain ⟨ss, hsR⟩ : ∃ ss, st.sRate = rateOf st.sBond ss s3.hub.reqS := by
+    rcases spec.2 with ⟨hz, he⟩ | ⟨bs, ss, _, _, _, _, _, h6, _⟩
+    · subst he
+      rcases hz with hz | hz
+      · rw [hdeq] at hz; exact absurd hz hdl
+      · omega
+    · exact ⟨ss, h6⟩
+  have hS0 : mulDec st.reqS st.sRate ≤ st.sBond := by
+    rcases hsb with hsb | hsb
+    · rw [hsR, sb.reqS]
+      unfold rateOf
+      by_cases hz : ss + s3.hub.reqS = 0
+      · have : s3.hub.reqS = 0 := by omega
+        rw [this]; unfold mulDec; rw [Nat.zero_mul, Nat.zero_div]; exact Nat.zero_le _
+      · rw [if_neg (by intro h; rcases h with h | h; exact hsb h; exact hz h)]
+        apply C09_undelegation_within_books _ _ ss _
+        exact Nat.div_mul_le_self _ _
+    · rw [hsb]; unfold mulDec; rw [Nat.zero_mul, Nat.zero_div]; exact Nat.zero_le _
+  have hB0 : mulDec (st.reqB + wfee) (rateOf st.bBond (s.bsei.supply - amt) (st.reqB + wfee)) ≤ st.bBond := by
+    unfold rateOf
+    by_cases hz : s.bsei.supply - amt + (st.reqB + wfee) = 0
+    · have : st.reqB + wfee = 0 := by omega
+      rw [this]; unfold mulDec; rw [Nat.zero_mul, Nat.zero_div]; exact Nat.zero_le _
+    · rw [if_neg (by intro h; rcases h with h | h; exact hbb h; exact hz h)]
+      apply C09_undelegation_within_books _ _ (s.bsei.supply - amt) _
+      exact Nat.div_mul_le_self _ _
+  obtain ⟨um, hpk⟩ := C09_pick_validator_live s3.hubEnv
+    (mulDec (st.reqB + wfee) (rateOf st.bBond (s.bsei.supply - amt) (st.reqB + wfee)) + mulDec st.reqS st.sRate)
+    (by rw [hdeq]; exact hdl) (by rw [hdeq]; omega) (by rw [hdeq]; exact hr)
+  obtain ⟨h2, hdef2⟩ : ∃ x : HubSt, x = { (st.afterUnbondB u s.bsei.supply amt wfee) with
+      sBond := st.sBond - mulDec st.reqS st.sRate,
+      bBond := st.bBond - mulDec (st.reqB + wfee) (rateOf st.bBond (s.bsei.supply - amt) (st.reqB + wfee)),
+      hist := upd st.hist st.batchId (some
+        { time := s3.hubEnv.now, bAmt := st.reqB + wfee,
+          bApplied := rateOf st.bBond (s.bsei.supply - amt) (st.reqB + wfee),
+          bWithdraw := rateOf st.bBond (s.bsei.supply - amt) (st.reqB + wfee),
+          sAmt := st.reqS, sApplied := st.sRate, sWithdraw := st.sRate, released := false }),
+      batchId := st.batchId + 1, reqB := 0, reqS := 0, lastUnbondedTime := s3.hubEnv.now } := ⟨_, rfl⟩
+  have hpu : (st.afterUnbondB u s.bsei.supply amt wfee).processUndelegations s3.hubEnv = .ok (h2, um) := by
+    unfold HubSt.processUndelegations
+    have e1 : (st.afterUnbondB u s.bsei.supply amt wfee).reqB = st.reqB + wfee := rfl
+    have e2 : (st.afterUnbondB u s.bsei.supply amt wfee).reqS = st.reqS := rfl
+    have e3 : (st.afterUnbondB u s.bsei.supply amt wfee).bRate = rateOf st.bBond (s.bsei.supply - amt) (st.reqB + wfee) := rfl
+    have e4 : (st.afterUnbondB u s.bsei.supply amt wfee).sRate = st.sRate := rfl
+    have e5 : (st.afterUnbondB u s.bsei.supply amt wfee).sBond = st.sBond := rfl
+    have e6 : (st.afterUnbondB u s.bsei.supply amt wfee).bBond = st.bBond := rfl
+    simp only [e1, e2, e3, e4, e5, e6, hpk]
+    rw [if_neg (by omega), if_neg (by omega), hdef2]
+    rfl
+  have hun : s3.hub.unbondB s3.hubEnv amt u = .ok (h2, um ++ [HubSt.tokMsg hubA bseiA (.burn amt)]) := by
+    unfold HubSt.unbondB
+    simp only [hact, hbsq', hwf]
+    rw [if_neg (by omega), if_neg (by rw [sb.lastUnb, hubeq, timeq]; omega)]
+    simp only [hubeq, hbt]
+    rw [if_pos (by rw [sb.lastUnb, sb.epoch, hubeq, timeq]; exact hgate), hpu]
+    rfl
+  obtain ⟨s4, hs4⟩ : ∃ x : Sys, x = { s3 with hub := h2 } := ⟨_, rfl⟩
+  have H4 : s3.handle (Msg.wasm bseiA hubA (.hub (.receive u amt .unbond)) []) =
+      .ok (s4, um ++ [HubSt.tokMsg hubA bseiA (.burn amt)]) := by
+    simp only [Sys.handle, Sys.moveFunds, bind, Except.bind, pure, Except.pure]
+    rw [if_pos trivial]
+    simp only [hubExec, hubeq, hp, Bool.false_eq_true, if_false, hbt, hst, bind, Except.bind, pure, Except.pure]
+    rw [if_pos trivial, ← hubeq, hun, hs4]
+  -- 4b. the Undelegate messages
+  obtain ⟨plan, hplan, hum⟩ : ∃ plan, calculateUndelegations 1
+      (mulDec (st.reqB + wfee) (rateOf st.bBond (s.bsei.supply - amt) (st.reqB + wfee)) + mulDec st.reqS st.sRate)
+      ((sortDesc s3.hubEnv.delegations).map (·.2)) = some plan ∧
+      um = zipMsgs (fun v p => Msg.undelegate hubA v p) (sortDesc s3.hubEnv.delegations) plan := by
+    have hpk' := hpk
+    unfold pickValidator at hpk'
+    simp only [] at hpk'
+    split at hpk'
+    · cases hpk'
+    · rename_i plan hplan
+      injection hpk' with hpk'
+      exact ⟨plan, hplan, hpk'.symm⟩
+  have c12 := C12_undeleg_conserves 0 _ _ plan hplan
+  have df := delegationsOf_facts s
+  have ch4 : s4.chain = s.chain := by rw [hs4, hs3, hs2, hs1]
+  rw [hdeq] at hum c12
+  obtain ⟨k, s4', hk, sc4, _, _, _, hrun⟩ := run_undelegates (sortDesc (s.delegationsOf hubA)) plan s4
+    ([HubSt.tokMsg hubA bseiA (.burn amt)] ++ [])
+    (nodup_sortDesc _ df.1)
+    (fun x hx => by rw [ch4]; exact df.2 x ((mem_sortDesc x _).mp hx))
+    (fun j => (c12.2.2 j).1) (by rw [ch4]; exact hnu)
+  have hklen : k ≤ 5 := by
+    have h1 : (sortDesc (s.delegationsOf hubA)).length = (s.delegationsOf hubA).length := by
+      have : ∀ l : List (Addr × Nat), (sortDesc l).length = l.length := by
+        intro l
+        induction l with
+        | nil => rfl
+        | cons x xs ih =>
+          have e : sortDesc (x :: xs) = insDesc x (sortDesc xs) := rfl
+          have ins : ∀ (m : List (Addr × Nat)), (insDesc x m).length = m.length + 1 := by
+            intro m
+            induction m with
+            | nil => rfl
+            | cons y ys ihy => simp only [insDesc]; split <;> simp [ihy]
+          rw [e, ins, ih]; rfl
+      exact this _
+    have h2' : (s.delegationsOf hubA).length ≤ 5 := by
+      unfold Sys.delegationsOf
+      simp only [if_true, List.length_map]
+      exact Nat.le_trans (List.length_filter_le _ _) (by decide)
+    omega
+  -- 5. the hub burns what it received
+  have bsei4 : s4'.bsei = t1 := by rw [sc4.bsei, hs4, hs3, hs2, hs1]
+  have wf1 : t1.WF := st1.1.wf
+  obtain ⟨t2, hbn⟩ : ∃ t, t1.burn hubA amt = .ok t := by
+    unfold Token.burn
+    have := Token.bal_le_supply t1 wf1 hubA
+    rw [if_neg (by omega), if_neg (by omega), if_neg (by omega)]
+    exact ⟨_, rfl⟩
+  have sup2 : t2.supply + amt = s.bsei.supply := by
+    unfold Token.burn at hbn
+    have := Token.bal_le_supply t1 wf1 hubA
+    rw [if_neg (by omega), if_neg (by omega), if_neg (by omega)] at hbn
+    injection hbn with hbn; subst hbn
+    simp only []; omega
+  obtain ⟨s5, hs5⟩ : ∃ x : Sys, x = { s4' with bsei := t2 } := ⟨_, rfl⟩
+  have sc34 : s4'.bseiRewardAddr = .ok rewardA := by
+    have w4 : Wired s4' := by
+      have fr := unbondB_frame s3.hub _ s3.hubEnv amt u _ hun
+      refine ⟨?_, ?_, ?_, ?_, ?_, ?_, ?_, ?_, ?_, ?_, ?_⟩
+      · rw [bsei4]; exact hub1
+      · rw [sc4.hub, hs4]; show h2.dispatcher = _; rw [fr.2.dispatcher, hubeq]; exact w.hubDisp
+      · rw [sc4.disp, hs4, hs3, hs2, hs1]; exact w.dispRw
+      · rw [sc4.reward, hs4, hs3]; show r3.hub = _; rw [hh3, hs2]; show r2.hub = _; rw [hh2, hs1]; exact w.rwHub
+      · rw [sc4.hub, hs4]; show h2.bsei = _; rw [fr.2.bsei, hubeq]; exact w.hubTok
+      · rw [sc4.hub, hs4]; show External h2.creator; rw [fr.2.creator, hubeq]; exact w.hubOwner
+      · rw [sc4.hub, hs4]; show External h2.newOwner; rw [fr.2.newOwner, hubeq]; exact w.hubNominee
+      · rw [sc4.disp, hs4, hs3, hs2, hs1]; exact w.dispOwner
+      · rw [sc4.disp, hs4, hs3, hs2, hs1]; exact w.dispNominee
+      · rw [sc4.reward, hs4, hs3]; show External r3.owner
+        rw [ho3, hs2]; show External r2.owner
+        rw [ho2, hs1]; exact w.rwOwner
+      · rw [sc4.reward, hs4, hs3]; show External r3.newOwner
+        rw [hn3, hs2]; show External r2.newOwner
+        rw [hn2, hs1]; exact w.rwNominee
+    exact w4.rewardAddr
+  have H5 : s4'.handle (HubSt.tokMsg hubA bseiA (.burn amt)) =
+      .ok (s5, [Msg.wasm bseiA rewardA (.reward (.decrease hubA amt)) []]) := by
+    simp only [HubSt.tokMsg, Sys.handle, Sys.moveFunds, bind, Except.bind, pure, Except.pure]
+    rw [if_neg (by decide), if_pos trivial]
+    simp only [bsei4, bseiExec, bind, Except.bind, pure, Except.pure, throw, throwThe, MonadExceptOf.throw, hub1, sc34]
+    rw [if_neg (by simp)]
+    simp only [hbn, hs5]
+  -- 6. … and the reward contract lowers the hub's mirrored balance again
+  have rw5 : s5.reward = r3 := by rw [hs5]; show s4'.reward = r3; rw [sc4.reward, hs4, hs3]
+  have tok5 : s5.hubTokenOf s5.reward.hub = .ok bseiA := by
+    rw [rw5, hh3]
+    unfold Sys.hubTokenOf
+    have : s2.reward.hub = hubA := by rw [hs2]; show r2.hub = _; rw [hh2, hs1]; exact w.rwHub
+    rw [this]; simp only [if_true]
+    have fr := unbondB_frame s3.hub _ s3.hubEnv amt u _ hun
+    have : s5.hub.bsei = some bseiA := by
+      rw [hs5]; show s4'.hub.bsei = _; rw [sc4.hub, hs4]; show h2.bsei = _; rw [fr.2.bsei, hubeq]; exact hbt
+    rw [this]
+  have hb3h : r3.hBal hubA = s.bsei.bal hubA + amt := by
+    rw [hb3, hs2]; show r2.hBal hubA + amt = _
+    rw [hoth2 hubA (Ne.symm hu), hs1]; show s.reward.hBal hubA + amt = _; rw [hmh]
+  have htot3' : r3.totalBalance = s.bsei.supply := by
+    rw [htot3, hs2]; show r2.totalBalance + amt = _
+    rw [htot2, hs1]; show s.reward.totalBalance - amt + amt = _; rw [hmt]; omega
+  obtain ⟨r6, hr6, inv6, hb6, htot6, hh6, hoth6, _, _⟩ := reward_decrease_ok s5.reward rewardA
+    (s5.hubDispatcherOf s5.reward.hub) (s5.chain.bank rewardA) bseiA hubA amt (by rw [rw5]; exact inv3)
+    (by rw [rw5, hb3h]; omega) (by rw [rw5, htot3']; exact hsup)
+  obtain ⟨s6, hs6⟩ : ∃ x : Sys, x = { s5 with reward := r6 } := ⟨_, rfl⟩
+  have H6 : s5.handle (Msg.wasm bseiA rewardA (.reward (.decrease hubA amt)) []) = .ok (s6, []) := by
+    simp only [Sys.handle, Sys.moveFunds, bind, Except.bind, pure, Except.pure]
+    rw [if_neg (by decide), if_neg (by decide), if_neg (by decide), if_pos trivial]
+    simp only [tok5, hr6, hs6]
+  have psp := processUndelegations_spec _ _ _ _ hpu
+  refine ⟨s6, ?_, ?_, ?_, ?_, ?_⟩
+  · unfold Sys.exec
+    obtain ⟨n2, hn2⟩ : ∃ n2, 396 - k = n2 + 2 := ⟨394 - k, by omega⟩
+    have e396 : (396 : Nat) = (396 - k) + k := by omega
+    have hr1 : Sys.run 400 s [Msg.wasm u bseiA (.tok (.send hubA amt .unbond)) []] =
+        Sys.run 396 s4 ((um ++ [HubSt.tokMsg hubA bseiA (.burn amt)]) ++ []) := by
+      simp only [Sys.run, H1, H2, H3, H4, List.nil_append, List.append_nil, List.cons_append, List.singleton_append]
+    rw [hr1, hum, List.append_assoc, e396, hrun (396 - k), hn2]
+    simp only [Sys.run, H5, H6, List.nil_append, List.append_nil, List.singleton_append]
+  · rw [hs6, hs5]; exact sup2
+  · rw [hs6]; show r6.totalBalance = s5.bsei.supply
+    rw [htot6, rw5, htot3', hs5]; show s.bsei.supply - amt = t2.supply; omega
+  · rw [hs6, hs5]; show s4'.hub.batchId = _
+    rw [sc4.hub, hs4]; show h2.batchId = _
+    rw [hdef2]; show st.batchId + 1 = _; rw [sb.batchId, hubeq]
+  · rw [hs6, hs5]
+    have hent : s4'.hub.hist s.hub.batchId = some
+        { time := s3.hubEnv.now, bAmt := st.reqB + wfee,
+          bApplied := rateOf st.bBond (s.bsei.supply - amt) (st.reqB + wfee),
+          bWithdraw := rateOf st.bBond (s.bsei.supply - amt) (st.reqB + wfee),
+          sAmt := st.reqS, sApplied := st.sRate, sWithdraw := st.sRate, released := false } := by
+      rw [sc4.hub, hs4]; show h2.hist s.hub.batchId = _
+      rw [hdef2]; show upd st.hist st.batchId _ s.hub.batchId = _
+      rw [sb.batchId, hubeq, upd_same]
+    exact ⟨_, hent, timeq, rfl⟩
+
 end Krp
